@@ -1,5 +1,6 @@
 """Shared by the program-level properties (C01, C02, C09-C13, C16): generate sources, run the
 implementation, compare with the model (correspondence) and with Sem.v (specification oracle)."""
+import re
 import vlib, runcorr, genwf, nlast
 
 
@@ -7,7 +8,12 @@ def gen_sources(ctx, n, with_value_out=None, **kw):
     """with_value_out: a list that receives, per program, whether its last statement is an expression statement
     (only then is the program's VALUE specified, DESIGN.md 4.3 item 1)"""
     out, asts = [], []
+    mix = "collide" not in kw
     for _ in range(n):
+        if mix:
+            # a third of the programs borrow the names of parameters, locals and (nested) functions from anywhere in
+            # the program: which name space a name also lives in must not matter
+            kw["collide"] = 0.4 if ctx.rng.random() < 0.35 else 0.0
         p, st = genwf.gen_program(ctx.rng, **kw)
         wv = bool(st.pop("__ends_with_value", 1))
         if with_value_out is not None:
@@ -170,3 +176,374 @@ def alloc_stress_family():
         out.append("stel i = 0; zolang i < %d { i += 1; stel t = \"s\" } functie k(a, b) { [a, b] } k([0.25 + 0.5], [\"y\", 1.5 * 3.0])" % n)
         out.append("stel i = 0; stel acc = 0.0; zolang i < %d { i += 1; acc = acc + 0.5 } stel l = [[acc], [acc + 1.0]]; stel m = [l, [l[0]]]; m" % n)
     return out
+
+
+# ------------------------------------------------------------------------------------------------------------------
+# Scale families: the same small programs at sizes around every width the implementation encodes something in
+# (one byte, two bytes, its own thresholds): how MANY constants, locals, arguments, statements, nesting levels,
+# live objects or code bytes a program has must not change what it means.  Expected values are closed forms.
+
+def _arr(vals):
+    return "[" + ", ".join(str(v) for v in vals) + "]"
+
+
+def many_constants_family(quick):
+    """N distinct literals, then repeated literals in plain and fused positions"""
+    out = []
+    for n in ((200, 256, 257, 300, 1000) if quick else (100, 200, 254, 255, 256, 257, 258, 300, 511, 512, 513, 1000, 4096, 20000)):
+        ints = list(range(1000, 1000 + n))
+        src = ("stel a = %s; functie f(x) { x - 12 } functie g(x) { 12 < x } functie h(x) { x * 7 }; "
+               "[7 + 7, 7 * 7, 9 - 9, a[0], a[%d], lengte(a), f(12), g(100), h(7), 12, 1000 + 1, %d - 1]" % (_arr(ints), n - 1, 1000 + n - 1))
+        exp = [14, 49, 0, 1000, 1000 + n - 1, n, 0, True, 49, 12, 1001, 1000 + n - 2]
+        out.append(("constants:int:%d" % n, src, exp))
+        strs = ["\"s%d\"" % i for i in range(n)]
+        src = ("stel b = %s; stel t = \"s0\"; [lengte(b), b[0], b[%d], \"s0\" == b[0], \"s1\" == b[1], t == \"s0\", \"s%d\" == b[%d], 3.5 + 3.5, 3.5 == 3.5]"
+               % (_arr(strs), n - 1, n - 1, n - 1))
+        exp = [n, "s0", "s%d" % (n - 1), True, True, True, True, 7.0, True]
+        out.append(("constants:str:%d" % n, src, exp))
+        fl = ["%d.5" % i for i in range(n)]
+        src = "stel c = %s; [lengte(c), c[0] + c[1], c[%d] - %d.5, 0.5 + 0.5, 1.5 == c[1], 2.5 * 2.0]" % (_arr(fl), n - 1, n - 1)
+        exp = [n, 2.0, 0.0, 1.0, True, 5.0]
+        out.append(("constants:float:%d" % n, src, exp))
+    return out
+
+
+def many_locals_family(quick):
+    """a function (and the top level) with N variables: the ones declared last behave like the first"""
+    out = []
+    for n in ((100, 254, 255, 256, 257, 300) if quick else (10, 100, 253, 254, 255, 256, 257, 258, 300, 511, 512, 513, 1000, 5000)):
+        decl = " ".join("stel l%d = %d;" % (i, i) for i in range(n))
+        body = ("%s stel teller = 41; stel grens = 7; teller += 1; "
+                "[teller + 1, grens * 2, l0 + 1, l%d + 1, teller < 50, 50 - teller, 100 > grens, grens == 7, grens != 7, teller %% 5, teller / 2, p, als ja { stel kleiner = teller - 1; kleiner - 1 }]" % (decl, n - 1))
+        exp = [43, 14, 1, n, True, 8, True, True, False, 2, 21, 9, 40]
+        out.append(("locals:fn:%d" % n, "functie f(p) { %s } f(9)" % body, exp))
+        out.append(("locals:top:%d" % n, "stel p = 9; %s" % body, exp))
+        # blocks: slots released at the end of a block are taken again
+        blk = " ".join("{ stel b%d = %d; t += b%d }" % (i, i, i) for i in range(n))
+        out.append(("locals:blocks:%d" % n, "functie f() { stel t = 0; %s; stel na = 5; [t, na + 1] } f()" % blk, [n * (n - 1) // 2, 6]))
+    return out
+
+
+def many_args_family(quick):
+    out = []
+    for n in ((2, 100, 254, 255) if quick else (1, 2, 16, 100, 127, 128, 129, 200, 253, 254, 255)):
+        ps = ", ".join("p%d" % i for i in range(n))
+        args = ", ".join(str(i * 3) for i in range(n))
+        out.append(("args:%d" % n, "functie f(%s) { stel own = 5; [p0, p%d, own, p%d + 1] } f(%s)" % (ps, n - 1, n // 2, args), [0, (n - 1) * 3, 5, (n // 2) * 3 + 1]))
+        out.append(("args:print:%d" % n, "print(\"%s\", %s); %d" % (" ".join("{}" for _ in range(n)), args, n), ("OUT", "OK i%d" % n, " ".join(str(i * 3) for i in range(n))) if n < 255 else ("LIMIT-OK", ("OUT", "OK i%d" % n, " ".join(str(i * 3) for i in range(n))))))
+    return out
+
+
+def many_statements_family(quick):
+    """N sibling statements of every kind: nothing accumulates from one statement to the next"""
+    out = []
+    for n in ((127, 128, 129, 130, 256, 257, 1000) if quick else (10, 63, 64, 65, 126, 127, 128, 129, 130, 131, 254, 255, 256, 257, 258, 511, 512, 513, 1000, 1024, 4097)):
+        kinds = [
+            ("opassign", "t += 1;", n), ("opassign-mixed", "t += 2; t -= 1; t *= 1; t /= 1;", n), ("assign", "t = t + 1;", n), ("paren", "(t = (t) + (1));", n),
+            ("prefix", "t = t + -(-1); !ja;", n), ("block", "{ t += 1 }", n), ("if", "als t >= 0 { t += 1 }", n), ("ifelse", "als t < 0 { t -= 1 } anders als nee { } anders { t += 1 }", n),
+            ("loop", "zolang nee { } t += 1;", n), ("loop1", "stel k = 0; zolang k < 1 { k += 1; t += 1 }", n), ("let", "stel t = t2 + 1; stel t2 = t;", n), ("call", "t = op(t);", n),
+            ("fn", "functie op(x) { x + 1 } t = op(t);", n), ("array", "[t, [t]]; t += 1;", n), ("index", "w[0] = w[0] + 1; t = w[0];", n), ("string", "\"a\"; t += lengte(\"b\");", n),
+            ("ifval", "t = als ja { t + 1 } anders { t };", n), ("builtin", "t = int(string(t)) + 1;", n), ("cmp", "t = t + int(t < %d);" % (n + 5), n),
+        ]
+        for name, stmt, val in kinds:
+            pre = "stel t = 0; stel t2 = 0; stel w = [0]; functie op(x) { x + 1 }; "
+            out.append(("stmts:%s:%d" % (name, n), pre + (stmt + " ") * n + "t", val))
+            out.append(("stmts:fn:%s:%d" % (name, n), "functie hoofd() { " + pre + (stmt + " ") * n + "t } hoofd()", val))
+    return out
+
+
+def nesting_family(quick):
+    """syntactic nesting depth D of every bracketing construct (far below the native-stack finding D27)"""
+    out = []
+    for d in ((10, 127, 128, 129, 300) if quick else (1, 10, 63, 64, 65, 100, 126, 127, 128, 129, 130, 200, 254, 255, 256, 257, 300, 500)):
+        out.append(("nest:paren:%d" % d, "(" * d + "1 + 2" + ")" * d, 3))
+        out.append(("nest:block:%d" % d, "{ " * d + "41 + 1" + " }" * d, 42))
+        out.append(("nest:neg:%d" % d, "- " * d + "5", (5 if d % 2 == 0 else -5)))
+        out.append(("nest:not:%d" % d, "! " * d + "ja", (d % 2 == 0)))
+        out.append(("nest:if:%d" % d, "stel t = 0; " + "als ja { t += 1; " * d + "t" + " }" * d, d))
+        out.append(("nest:ifval:%d" % d, "1 + als ja { " * d + "0" + " }" * d, d))
+        out.append(("nest:call:%d" % d, "functie s(x) { x + 1 } " + "s(" * d + "0" + ")" * d, d))
+        out.append(("nest:array:%d" % d, "stel a = " + "[" * d + "7" + "]" * d + "; stel i = 1; zolang i < %d { i += 1; a = a[0] }; a[0]" % d, 7))
+        out.append(("nest:loop:%d" % d, "stel t = 0; " + "".join("stel k%d = 0; zolang k%d < 1 { k%d += 1; " % (i, i, i) for i in range(d)) + "t += 1" + " }" * d + " t", 1))
+        out.append(("nest:infix-right:%d" % d, "1 + (" * d + "0" + ")" * d, d))
+        out.append(("nest:infix-left:%d" % d, "0" + " + 1" * d, d))
+        out.append(("nest:elseif:%d" % d, "stel v = %d; als v == 0 { 0 } " % (d - 1) + "".join("anders als v == %d { %d } " % (i, i * 2) for i in range(1, d)) + "anders { 0 - 1 }", ((d - 1) * 2 if d > 1 else 0)))
+    return out
+
+
+def runtime_nesting_family(quick):
+    """a value nested D arrays deep, built at run time, survives collections and is read back"""
+    out = []
+    for d in ((200, 254, 255, 256, 257, 400) if quick else (1, 100, 126, 127, 128, 129, 253, 254, 255, 256, 257, 258, 300, 511, 512, 513, 1000)):
+        src = ("functie niets() { stel z = [0.5]; 0 } stel a = [2.5, \"diep\"]; stel i = 0; zolang i < %d { i += 1; a = [a] } niets(); niets(); "
+               "stel j = 0; zolang j < 40 { j += 1; stel vul = 7.25 + 0.5 } niets(); stel b = a; stel i = 0; zolang i < %d { i += 1; b = b[0] }; [b[0], b[1], lengte(b)]" % (d, d))
+        out.append(("rtnest:%d" % d, src, [2.5, "diep", 2]))
+    return out
+
+
+def many_objects_family(quick):
+    """N allocations with no function return in between, then fresh heap values held only by a half-built literal /
+    argument list / operand, then more allocations: the literal still holds what was written"""
+    out = []
+    for n in ((1000, 4095, 4096, 4097, 9000) if quick else (10, 255, 256, 257, 1023, 1024, 1025, 4094, 4095, 4096, 4097, 4098, 8191, 8192, 8193, 16384, 16385, 40000, 65535, 65536, 65537, 70000)):
+        tail = "stel j = 0; zolang j < 60 { j += 1; stel u = 3.0 + 1.0; stel w = \"vul\" }"
+        out.append(("objects:literal:%d" % n, "stel i = 0; zolang i < %d { i += 1; stel t = [i] } stel punt = [2500.5 + 2500.25, \"tekst\", [0.5 + 0.25], 10000 + 1]; stel alias = punt; stel nest = [punt]; %s; stel binnen = punt[2]; stel buiten = nest[0]; [punt[0], punt[1], binnen[0], alias[0], buiten[3]]" % (n, tail),
+                    [5000.75, "tekst", 0.75, 5000.75, 10001]))
+        out.append(("objects:args:%d" % n, "functie k(a, b, c) { [a, b, c] } stel i = 0; zolang i < %d { i += 1; stel t = \"s\" } stel r = k([0.25 + 0.5], \"y\", 1.5 * 3.0); %s; r" % (n, tail), [[0.75], "y", 4.5]))
+        out.append(("objects:floats:%d" % n, "stel i = 0; stel acc = 0.0; zolang i < %d { i += 1; acc = acc + 0.5 } stel l = [[acc], [acc + 1.0]]; %s; stel l0 = l[0]; stel l1 = l[1]; [l0[0], l1[0]]" % (n, tail), [n * 0.5, n * 0.5 + 1.0]))
+        out.append(("objects:in-function:%d" % n, "functie bouw(n) { stel i = 0; stel keep = [1.5]; zolang i < n { i += 1; stel t = [i, 0.5 + 0.5] } stel l = [keep[0] + 1.0, [\"x\"], keep]; l } stel r = bouw(%d); %s; stel r1 = r[1]; stel r2 = r[2]; [r[0], r1[0], r2[0]]" % (n, tail), [2.5, "x", 1.5]))
+    return out
+
+
+def _fl(x):
+    return str(int(x)) if x == int(x) else repr(x)
+
+
+def code_boundary_family(quick):
+    """every kind of jump and call with the construct placed across the 64 KiB boundary of the code: either the program is
+    rejected as too large or it behaves as it does at offset 0 (metamorphic on the implementation)"""
+    temps = [
+        "stel c = 1 < 2; stel r = als c { 10 } anders { 20 }; stel s = als !c { 1 } anders als c { 2 } anders { 3 }; stel uit = [r, s]; uit",
+        "functie f(x) { x + 1 } stel t = 41; stel r = f(t); stel uit = [r, t]; uit",
+        "stel i = 0; stel e = 0; zolang i < 6 { i += 1; als i % 2 == 0 { volgende } als i == 5 { stop } e += i }; stel uit = [i, e]; uit",
+        "stel r = 0; als ja { r = 1 }; stel q = als nee { 1 }; stel uit = [r, q]; uit",
+        "stel v = als nee { 1 } anders als nee { 2 } anders als ja { 3 } anders { 4 }; functie g(c) { als c { antwoord 1 } 2 }; stel uit = [v, g(ja), g(nee)]; uit",
+    ]
+    out = []
+    # padding: one array literal statement of m sevens is 3 m + 4 bytes (m constants loads, Array u16, Pop); `ja;` is 2
+    # bytes, `!ja;` 3.  Functions are compiled in line, so the template's own functions may come first or last.
+    span = range(65536 - 150, 65536 + 8, (4 if quick else 1))
+    for t, src in enumerate(temps[: (3 if quick else 5)]):
+        for k in span:
+            m = (k - 4) // 3 - 2
+            rest = k - (3 * m + 4)
+            fine = pad(rest) if rest != 1 else None
+            if fine is None:
+                continue
+            out.append((t, k, "[" + ", ".join("7" for _ in range(m)) + "]; " + fine + src))
+    return temps, out
+
+
+def huge_literal_family():
+    """integer literals beyond the 61-bit range are rejected, whatever they are congruent to"""
+    out = []
+    for k in list(range(1, 34)) + [2 ** 10, 2 ** 32, 2 ** 64, 10 ** 20]:
+        for r in (0, 1, 42, 2 ** 60 - 1, 2 ** 60, 2 ** 61, 2 ** 63, 2 ** 64 - 1):
+            out.append(2 ** 64 * k + r)
+    out += [2 ** 60, 2 ** 60 + 1, 2 ** 61 - 1, 2 ** 61, 2 ** 62, 2 ** 63 - 1, 2 ** 63, 2 ** 63 + 1, 2 ** 64 - 1, 2 ** 64, 2 ** 64 + 1, 2 ** 65, 2 ** 127, 2 ** 128, 2 ** 128 + 42]
+    out += [10 ** n for n in range(18, 45)] + [10 ** n + 42 for n in range(18, 45)] + [int("9" * n) for n in range(18, 45)]
+    return sorted(set(x for x in out if x > 2 ** 60 - 1))
+
+
+SCALE_PARTS = {"constants": many_constants_family, "locals": many_locals_family, "args": many_args_family, "statements": many_statements_family,
+               "nesting": nesting_family, "rtnest": runtime_nesting_family, "objects": many_objects_family}
+
+
+def run_scale(ctx, log, parts, budget=30000000, profiles=("release",)):
+    """evaluates the requested scale families on the implementation and compares with the closed-form expectation:
+    a Python value (the program's value graph must decode to it), or (head, printed text)"""
+    fam = []
+    for p in parts:
+        fam += SCALE_PARTS[p](ctx.quick)
+    for profile in profiles:
+        obs = vlib.nlh("eval", ["%d %s" % (budget, vlib.hexs(src)) for _, src, _ in fam], tag=ctx.prop.lower() + "sc", timeout=1800, profile=profile)
+        for (tag, src, exp), o in zip(fam, obs):
+            ctx.seen(("scale", tag, profile))
+            ctx.count("scale:" + tag.split(":")[0])
+            ok, want = scale_ok(o, exp)
+            if not ok and progcheck_head(o) == "ERR Syntax" and len(src) > 40000:
+                ctx.count("scale-too-large-rejected")      # resource limit (code, constants or jump beyond 16 bits): DESIGN 4.3 item 5
+                continue
+            if not ok:
+                ctx.violate("the same small program means something else at this size (%s, %s build)" % (tag, profile), source=src if len(src) < 3000 else src[:1200] + " ...(%d characters)... " % len(src) + src[-1200:],
+                            observed=o[:300], expected=want, family=tag)
+    return fam
+
+
+def progcheck_head(o):
+    return o.split(" | ")[0]
+
+
+def decode_value(txt):
+    """value graph as printed by the harness (`#0=A[i1,#1=F<bits>,#2=S120.233,b1,n,f17.0,#1]`) -> Python value"""
+    import struct
+    pos = [0]
+    seen = {}
+
+    def val():
+        m = re.match(r"#(\d+)=", txt[pos[0]:])
+        ident = None
+        if m:
+            ident = int(m.group(1))
+            pos[0] += m.end()
+        c = txt[pos[0]]
+        if c == "#":
+            m = re.match(r"#(\d+)", txt[pos[0]:])
+            pos[0] += m.end()
+            return seen.get(int(m.group(1)))
+        if c == "A":
+            pos[0] += 2
+            out = []
+            if ident is not None:
+                seen[ident] = out
+            while txt[pos[0]] != "]":
+                out.append(val())
+                if txt[pos[0]] == ",":
+                    pos[0] += 1
+            pos[0] += 1
+            return out
+        m = re.match(r"i(-?\d+)|b([01])|F([0-9a-fA-F]{16})|S([\d.]*)|(n)\w*|f(\d+)\.(\d+)", txt[pos[0]:])
+        pos[0] += m.end()
+        if m.group(1) is not None:
+            v = int(m.group(1))
+        elif m.group(2) is not None:
+            v = m.group(2) == "1"
+        elif m.group(3) is not None:
+            v = struct.unpack(">d", bytes.fromhex(m.group(3)))[0]
+        elif m.group(4) is not None:
+            v = "".join(chr(int(x)) for x in m.group(4).split(".") if x)
+        elif m.group(5) is not None:
+            v = None
+        else:
+            v = ("fn", int(m.group(6)), int(m.group(7)))
+        if ident is not None:
+            seen[ident] = v
+        return v
+    return val()
+
+
+def scale_ok(o, exp):
+    parts = o.split(" | ")
+    head = parts[0]
+    outp = ""
+    for p in parts[1:]:
+        if p.startswith("OUT "):
+            outp = decode_cp(p[4:])
+    # resource limits may answer with an error value (DESIGN 4.3 item 5) - never with another value
+    if head == "ERR Syntax" and isinstance(exp, tuple) and exp[0] == "LIMIT-OK":
+        return True, None
+    if isinstance(exp, tuple) and exp[0] == "LIMIT-OK":
+        exp = exp[1]
+    if isinstance(exp, tuple) and exp[0] == "OUT":
+        return (head == exp[1] and outp.rstrip("\n") == exp[2]), "%s printing %s" % (exp[1], exp[2])
+    if not head.startswith("OK "):
+        return False, repr(exp)
+    try:
+        got = decode_value(head[3:])
+    except Exception as e:
+        return False, "%r (observation not decodable: %r)" % (exp, e)
+    same = got == exp and type(got) == type(exp) and repr(got) == repr(exp)
+    return same, repr(exp)
+
+
+def decode_cp(t):
+    if t.strip() in ("-", ""):
+        return ""
+    return "".join(chr(int(x)) for x in t.strip().split("."))
+
+
+def run_code_boundary(ctx, log, budget=3000000):
+    temps, fam = code_boundary_family(ctx.quick)
+    base = vlib.nlh("eval", ["%d %s" % (budget, vlib.hexs(s)) for s in temps], tag=ctx.prop.lower() + "cb")
+    obs = vlib.nlh("eval", ["%d %s" % (budget, vlib.hexs(s)) for _, _, s in fam], tag=ctx.prop.lower() + "cbf", timeout=1800)
+    rejected = 0
+    for (t, k, src), o in zip(fam, obs):
+        ctx.seen(("code-boundary", t, k))
+        ctx.count("code-boundary")
+        if head(o) == "ERR Syntax":
+            rejected += 1
+            continue
+        if visible(o) != visible(base[t]):
+            ctx.violate("a construct placed across the 64 KiB boundary of the code neither behaves as at offset 0 nor is rejected as too large",
+                        source="(%d bytes of padding code: one array literal statement and `ja;` statements) %s" % (k, temps[t]), observed=visible(o)[:300], expected=visible(base[t])[:300] + " or ERR Syntax", offset=k, template=temps[t])
+    log("code boundary: %d placements around byte 65536 (%d rejected as too large)" % (len(fam), rejected))
+    if rejected == len(fam) or rejected == 0:
+        ctx.notes.append("code-boundary family: %d of %d placements rejected (expected a mix: the family may not straddle the limit any more)" % (rejected, len(fam)))
+
+
+def stray_jump_family(quick, rng):
+    """`stop` / `volgende` under every nesting of loops, functions, blocks and branches: accepted exactly when the
+    innermost enclosing loop-or-function is a loop (decided by Sem.v's static pass and by running the program)"""
+    import itertools
+    wrap = {
+        "L": lambda n, b: "stel k%d = 0; zolang k%d < 2 { k%d += 1; %s }" % (n, n, n, b),
+        "F": lambda n, b: "functie f%d() { %s } f%d();" % (n, b, n),
+        "B": lambda n, b: "{ %s }" % b,
+        "I": lambda n, b: "als t >= 0 { %s }" % b,
+        "E": lambda n, b: "als t < 0 { } anders { %s }" % b,
+    }
+    out = []
+    shapes = []
+    for d in (1, 2, 3, 4):
+        for sh in itertools.product("LFBIE" if d < 3 else "LFBI", repeat=d):
+            shapes.append(sh)
+    if quick:
+        shapes = [s for s in shapes if len(s) <= 3] + rng.sample([s for s in shapes if len(s) == 4], 40)
+    for sh in shapes:
+        for jump in ("stop", "volgende"):
+            body = "t += 1; %s; t += 100" % jump
+            for n, w in enumerate(reversed(sh)):
+                body = wrap[w](n, body)
+            out.append("stel t = 0; %s; t" % body)
+    return out
+
+
+# ------------------------------------------------------------------------------------------------------------------
+# A line that fails - whatever way - and completed no assignment and no declaration leaves a retained session
+# exactly as it was: every later line answers as in the session without that line (metamorphic, implementation only)
+
+PURE_FAILING_LINES = [
+    # run-time failures inside builtins (arity, type), operators, calls
+    "lengte(5)", "int(1, 2)", "bool()", "type()", "float(nee, 1)", "string(1, 2)", "lengte(a, b)", "int(onwaar_)", "1 / 0", "ja + 1", "-ja", "a / 0", "b % 0", "a(1)", "a[0]",
+    "print(1 / 0)", "int(lengte(5))", "bool(int(1, 2, 3))", "als lengte(7) { 1 }", "zolang bool(1, 2) { }",
+    # compile-time failures at every depth of nesting (the retained compiler has to come back to the top level)
+    "onbekend", "onbekend(1)", "onbekend = 1", "functie k() { onbekend } k()", "functie k(q) { stel w = 1; onbekend2 }", "functie k() { functie m() { onbekend } m() } k()",
+    "functie k(p) { als p { zolang ja { functie m(r) { stel s = r; onbekend } } } }", "zolang ja { onbekend }", "{ stel q = 1; onbekend }", "{ { stel q = 1; { onbekend } } }",
+    "als ja { stop }", "volgende", "functie k() { stop }", "functie k() { zolang ja { functie m() { stop } m() } } k()", "zolang ja { functie m() { volgende } stop }", "als onbekend { 1 }",
+    "stel c1 = 1; stel c2 = onbekend", "functie k() { 1 } stel c3 = onbekend", "stel c4 = functie(x) { x + onbekend }",
+    # parse failures
+    "1 +", "f(", "stel", "a = ", ")", "functie k( { 1 }", "als { 1 }", "\"open", "1 № 2", "[1, 2", "{ stel q = 1",
+]
+SESSION_PRE = [["stel a = 1", "stel b = a + 1"], ["stel b = 7", "stel a = 5; a", "functie t(n) { n + a } t(2)"], ["{ stel weg = 9 }", "stel a = 3", "stel b = 4; b = b + a"]]
+SESSION_POST = ["a", "b", "a + b", "int(b) + 1", "bool(a)", "type(a) == type(b)", "stel z = 3; z", "a = a + 1; a", "functie g() { a + b } g()", "functie g2(x) { stel y = x; y + b } g2(a)",
+                "stel i = 0; zolang i < 3 { i += 1 } i", "als a > 0 { b } anders { 0 }", "{ stel loc = a; loc + 1 }", "lengte(string(a + b))", "z + a", "stel nieuw = b; functie g3() { nieuw + z } g3()",
+                "int(float(b)) + a", "print(\"{} {}\", a, b)"]        # (a text literal only on the LAST line: recorded finding D24ab)
+
+
+def run_failing_lines(ctx, log, budget=200000):
+    def obs_lines(o):
+        return [re.sub(r" ST .*$", "", x.strip()) for x in o.split(" ;; ") if x.strip()]
+    sessions, meta = [], []
+    for pi, pre in enumerate(SESSION_PRE):
+        sessions.append(pre + SESSION_POST)
+        meta.append((pi, None, None))
+        for f in PURE_FAILING_LINES:
+            for where in (0, 5):
+                sessions.append(pre + SESSION_POST[:where] + [f] + SESSION_POST[where:])
+                meta.append((pi, f, where))
+            sessions.append(pre + [f, f] + SESSION_POST[:9] + [f] + SESSION_POST[9:])
+            meta.append((pi, f, "3x"))
+    obs = vlib.nlh("session", ["%d %s" % (budget, " ".join(vlib.hexs(l) for l in s)) for s in sessions], tag=ctx.prop.lower() + "fl", timeout=600)
+    base = {}
+    for (pi, f, where), s, o in zip(meta, sessions, obs):
+        if f is None:
+            base[pi] = obs_lines(o)
+    for (pi, f, where), s, o in zip(meta, sessions, obs):
+        if f is None:
+            continue
+        ctx.seen(("failing-line", pi, f, where))
+        ctx.count("failing-line-sessions")
+        got = obs_lines(o)
+        npre = len(SESSION_PRE[pi])
+        if where == "3x":
+            rest = got[:npre] + got[npre + 2:npre + 2 + 9] + got[npre + 2 + 9 + 1:]
+            failed = got[npre:npre + 2] + got[npre + 2 + 9:npre + 2 + 9 + 1]
+        else:
+            rest = got[:npre + where] + got[npre + where + 1:]
+            failed = got[npre + where:npre + where + 1]
+        if o.startswith("PANIC") or o.startswith("CRASH") or rest != base[pi]:
+            ctx.violate("a line that failed without completing any assignment or declaration changed what later lines of the session produce",
+                        session=s, failing_line=f, observed=(o if len(o) < 900 else o[:900])[:900], expected=" ;; ".join(base[pi])[:900])
+        elif any(not x.startswith("ERR") for x in failed):
+            ctx.violate("a line that must fail did not fail", session=s, failing_line=f, observed=" ;; ".join(failed)[:300])
+    log("failing-line family: %d sessions (each of %d failing lines at two positions and three times, after %d different beginnings)" % (len(sessions), len(PURE_FAILING_LINES), len(SESSION_PRE)))
